@@ -8,9 +8,11 @@ import (
 	"io"
 	"net"
 	"net/http"
+	"net/url"
 	"os"
 	"strconv"
 	"strings"
+	"syscall"
 	"time"
 
 	sse "github.com/tmaxmax/go-sse"
@@ -35,10 +37,24 @@ import (
 // Injected errors (transport, validator, reader, GetBody) are VALUES identified by an index; the index
 // also fixes the character of the value (scriptedErr): a plain error, one whose type says Temporary() or
 // Timeout(), one that wraps io.EOF / io.ErrUnexpectedEOF / os.ErrDeadlineExceeded, a *net.OpError around
-// a wrapped io.EOF.  The properties quantify over all errors; what they say depends on WHERE the error
-// arose, never on what it looks like, so the model takes the index as opaque and the projection
-// (connErrOf) finds the injected value by identity (errors.As on the harness's own types) before it asks
+// a wrapped io.EOF; what a network really produces (*net.OpError{Op:"dial"} around ECONNREFUSED,
+// *net.OpError{Op:"read"} around ECONNRESET, either inside a *url.Error as an http.Client hands it out,
+// *net.DNSError alone and inside a dial error); and errors that ARE or MATCH context.DeadlineExceeded /
+// context.Canceled although the request context is alive (the sentinels themselves, values wrapping them,
+// values whose Is method matches them as net/http's and net's timeout errors do, the latter also inside a
+// dial error): a timeout that belongs to one attempt, not to the request.  The properties quantify over all
+// errors; what they say depends on WHERE the error arose, never on what it looks like, so the model takes
+// the index as opaque and the projection (connErrOf) finds the injected value by identity (errors.As on the
+// harness's own types, the name of an injected *net.DNSError, == for the bare sentinels) before it asks
 // errors.Is about anything else.
+//
+// The request context (cfg.At(8)) is of every kind the context package offers: WithCancel, WithCancelCause
+// cancelled with a cause of its own, children of such a context (WithCancel, WithValue, WithTimeoutCause whose
+// timer is out of reach), a deadline that has already passed when Connect is called (WithDeadlineCause, real),
+// and a deadline that expires at a scripted instant (simDeadline: Err() is context.DeadlineExceeded,
+// context.Cause is the cause given).  Whatever the kind, "the context's error" is request.Context().Err() -
+// the projection of Connect's return value demands that very value (==), not something that merely matches
+// it, and never the cause.
 //
 // The same *Client may have produced other Connections before the one under test (cfg.At(6) throw-away
 // NewConnection calls): the configuration a Connection runs with is a function of the Client's fields,
@@ -80,7 +96,13 @@ type charErr struct{ idx uint64 }
 func (e charErr) kind() uint64    { return e.idx / 1000 }
 func (e charErr) Error() string   { return fmt.Sprintf("scripted error %d", e.idx) }
 func (e charErr) Temporary() bool { return e.kind() == 1 }
-func (e charErr) Timeout() bool   { return e.kind() == 2 }
+func (e charErr) Timeout() bool {
+	switch e.kind() {
+	case 2, 15, 18:
+		return true
+	}
+	return false
+}
 func (e charErr) Unwrap() error {
 	switch e.kind() {
 	case 3, 6:
@@ -89,21 +111,78 @@ func (e charErr) Unwrap() error {
 		return io.ErrUnexpectedEOF
 	case 5:
 		return os.ErrDeadlineExceeded
+	case 7, 9:
+		return &os.SyscallError{Syscall: "connect", Err: syscall.ECONNREFUSED}
+	case 8, 10:
+		return &os.SyscallError{Syscall: "read", Err: syscall.ECONNRESET}
+	case 13:
+		return context.DeadlineExceeded
+	case 14:
+		return context.Canceled
 	}
 	return nil
 }
 
-const connErrKinds = 7
+// Is: the way net/http's timeoutError and net's timeoutError / canceledError match the context sentinels.
+func (e charErr) Is(target error) bool {
+	switch e.kind() {
+	case 15, 18:
+		return target == context.DeadlineExceeded
+	case 19:
+		return target == context.Canceled
+	}
+	return false
+}
 
-// scriptedErr is the injected error value with index n.  n/1000: 0 plain (codeErr) | 1 Temporary() is true |
-// 2 Timeout() is true | 3 wraps io.EOF | 4 wraps io.ErrUnexpectedEOF | 5 wraps os.ErrDeadlineExceeded (whose
-// Timeout() is true) | 6 a *net.OpError whose Err wraps io.EOF (what a dropped TCP connection looks like).
+const connErrKinds = 20
+
+const dnsNamePrefix = "verif-injected-"
+
+// the index under which a bare sentinel (kinds 16, 17) was injected last: a sentinel has no room for an index, so
+// the projection reports the most recent injection of that very value (every clause about an injected error is
+// about the latest one: OnRetry's argument, the error Connect returns, the error Read yields)
+var lastBare = map[error]uint64{}
+
+var scriptedAddr = &net.TCPAddr{IP: net.IPv4(127, 0, 0, 1), Port: 9}
+
+// scriptedErr is the injected error value with index n.  n/1000:
+//
+//	0 plain (codeErr) | 1 Temporary() is true | 2 Timeout() is true | 3 wraps io.EOF | 4 wraps io.ErrUnexpectedEOF |
+//	5 wraps os.ErrDeadlineExceeded (whose Timeout() is true) | 6 a *net.OpError whose Err wraps io.EOF (a dropped TCP connection) |
+//	7 *net.OpError{Op:"dial"} around connect: ECONNREFUSED | 8 *net.OpError{Op:"read"} around read: ECONNRESET |
+//	9, 10 the same two inside a *url.Error (what an http.Client returns, e.g. one used by a RoundTripper or by GetBody) |
+//	11 *net.DNSError | 12 *net.OpError{Op:"dial"} around a *net.DNSError |
+//	13 wraps context.DeadlineExceeded | 14 wraps context.Canceled | 15 matches context.DeadlineExceeded through Is and says
+//	Timeout() (http.Client.Timeout's error) | 16 context.DeadlineExceeded itself | 17 context.Canceled itself |
+//	18 *net.OpError{Op:"dial"} around a timeout that matches context.DeadlineExceeded (a dialer's own deadline) |
+//	19 *net.OpError{Op:"dial"} around a value that matches context.Canceled (net's "operation was canceled")
+//
+// 13-19 are injected while the request context is alive: they are errors of the attempt, not of the context.
 func scriptedErr(n uint64) error {
+	dns := func() *net.DNSError {
+		return &net.DNSError{Err: "no such host", Name: dnsNamePrefix + strconv.FormatUint(n, 10), IsNotFound: true}
+	}
 	switch n / 1000 {
 	case 0:
 		return codeErr{n}
-	case 6:
-		return &net.OpError{Op: "read", Net: "tcp", Err: charErr{n}}
+	case 6, 8:
+		return &net.OpError{Op: "read", Net: "tcp", Source: scriptedAddr, Addr: scriptedAddr, Err: charErr{n}}
+	case 7, 18, 19:
+		return &net.OpError{Op: "dial", Net: "tcp", Addr: scriptedAddr, Err: charErr{n}}
+	case 9:
+		return &url.Error{Op: "Post", URL: "http://127.0.0.1:9/", Err: &net.OpError{Op: "dial", Net: "tcp", Addr: scriptedAddr, Err: charErr{n}}}
+	case 10:
+		return &url.Error{Op: "Get", URL: "http://127.0.0.1:9/", Err: &net.OpError{Op: "read", Net: "tcp", Source: scriptedAddr, Addr: scriptedAddr, Err: charErr{n}}}
+	case 11:
+		return dns()
+	case 12:
+		return &net.OpError{Op: "dial", Net: "tcp", Err: dns()}
+	case 16:
+		lastBare[context.DeadlineExceeded] = n
+		return context.DeadlineExceeded
+	case 17:
+		lastBare[context.Canceled] = n
+		return context.Canceled
 	default:
 		return charErr{n}
 	}
@@ -119,13 +198,87 @@ func connErrIdx(r *rng.R, c *Ctx, base int) uint64 {
 	return uint64(base + r.Intn(5) + 1000*kind)
 }
 
+// simDeadline is a context whose deadline expires when the script says so: cancelling the context it wraps IS the
+// expiry.  Err() is then context.DeadlineExceeded and context.Cause is the cause handed to the inner cancel - what
+// context.WithTimeoutCause gives when its timer fires.  It is always the request context itself (never a parent).
+type simDeadline struct {
+	context.Context
+	at time.Time
+}
+
+func (d simDeadline) Deadline() (time.Time, bool) { return d.at, true }
+func (d simDeadline) Err() error {
+	if d.Context.Err() != nil {
+		return context.DeadlineExceeded
+	}
+	return nil
+}
+
+type scriptedCause struct{ what string }
+
+func (c scriptedCause) Error() string { return "scripted cause: " + c.what }
+
+// Unwrap: a cause may well be built around the sentinel (fmt.Errorf("shutting down: %w", context.Canceled));
+// it still is not the context's error.
+func (c scriptedCause) Unwrap() error {
+	if c.what == "wrapping" {
+		return context.Canceled
+	}
+	return nil
+}
+
+const connCtxKinds = 7
+
+type connCtxKey struct{}
+
+// connContext builds the request context of kind k; end ends it the way the kind is ended (cancel, cancel with a
+// cause, expiry), release frees its resources after the run.
+//
+//	0 WithCancel | 1 WithCancelCause, cancelled with a cause | 2 WithCancel child of 1 | 3 WithValue child of 1 |
+//	4 WithTimeoutCause (one hour, a cause of its own) child of 1 | 5 a deadline with a cause that expires when the script
+//	says (simDeadline) | 6 WithDeadlineCause whose deadline passed before the request was made (only together with
+//	"cancelled before Connect"; otherwise one hour away, ended through its parent like 4)
+func connContext(k uint64, doneBefore bool) (ctx context.Context, end, release func()) {
+	if k == 0 {
+		ctx, cancel := context.WithCancel(context.Background())
+		return ctx, cancel, cancel
+	}
+	what := "plain"
+	if k%2 == 0 {
+		what = "wrapping"
+	}
+	parent, cancelCause := context.WithCancelCause(context.Background())
+	end = func() { cancelCause(scriptedCause{what}) }
+	switch k {
+	case 1:
+		return parent, end, end
+	case 2:
+		ctx, cancel := context.WithCancel(parent)
+		return ctx, end, func() { end(); cancel() }
+	case 3:
+		return context.WithValue(parent, connCtxKey{}, "v"), end, end
+	case 4:
+		ctx, cancel := context.WithTimeoutCause(parent, time.Hour, scriptedCause{"timer"})
+		return ctx, end, func() { end(); cancel() }
+	case 5:
+		return simDeadline{parent, time.Now().Add(time.Hour)}, end, end
+	default:
+		at := time.Now().Add(time.Hour)
+		if doneBefore {
+			at = time.Now().Add(-time.Second)
+		}
+		ctx, cancel := context.WithDeadlineCause(parent, at, scriptedCause{what})
+		return ctx, end, func() { end(); cancel() }
+	}
+}
+
 type connRun struct {
 	items    []val.V
 	steps    []val.V
 	idx      int
 	overrun  bool
 	ctx      context.Context
-	cancel   context.CancelFunc
+	cancel   func() // ends the request context the way its kind is ended: cancel, cancel with a cause, expiry
 	patience int64 // 0: none
 	reject   uint64
 	gbCalls  int
@@ -271,9 +424,18 @@ func (r *connRun) RoundTrip(req *http.Request) (*http.Response, error) {
 func connErrOf(err error) val.V {
 	var ce codeErr
 	var he charErr
+	var de *net.DNSError
 	switch {
 	case errors.As(err, &he): // identity of an injected value first: it may wrap any of the sentinels below
 		return val.L(val.N(2), val.N(he.idx))
+	case errors.As(err, &de) && strings.HasPrefix(de.Name, dnsNamePrefix):
+		if n, perr := strconv.ParseUint(de.Name[len(dnsNamePrefix):], 10, 64); perr == nil {
+			return val.L(val.N(2), val.N(n))
+		}
+		return val.L(val.N(9), val.S(fmt.Sprint(err)))
+	case err == context.DeadlineExceeded && lastBare[err] != 0, err == context.Canceled && lastBare[err] != 0:
+		// the sentinel itself, injected as an attempt's error (scriptedErr kinds 16, 17)
+		return val.L(val.N(2), val.N(lastBare[err]))
 	case err == io.EOF:
 		return val.L(val.N(0))
 	case errors.Is(err, sse.ErrUnexpectedEOF):
@@ -294,7 +456,10 @@ var connReasons = map[string]uint64{
 	"request reset failed": 0, "connection to server failed": 1, "response validation failed": 2, "connection to server lost": 3,
 }
 
-func connRetOf(err error) val.V {
+// connRetOf projects an error that Connect returned or handed to OnRetry.  "The context's error" (n1) is the value
+// ctx.Err() of the request context itself: not its cause, not an attempt's error that merely matches
+// context.Canceled / context.DeadlineExceeded, and nothing at all while the context is alive.
+func connRetOf(ctx context.Context, err error) val.V {
 	if err == nil {
 		return val.L(val.N(0))
 	}
@@ -306,8 +471,11 @@ func connRetOf(err error) val.V {
 		}
 		return val.L(val.N(2), val.N(rs), connErrOf(ce.Err))
 	}
-	if errors.Is(err, context.Canceled) || errors.Is(err, context.DeadlineExceeded) {
+	if cerr := ctx.Err(); cerr != nil && err == cerr {
 		return val.L(val.N(1))
+	}
+	if ctx.Err() == nil {
+		return val.L(val.N(9), val.S("not a *ConnectionError, and the request context is not done: "+fmt.Sprint(err)))
 	}
 	return val.L(val.N(9), val.S(fmt.Sprint(err)))
 }
@@ -316,8 +484,9 @@ func execConnect(in val.V) val.V {
 	return guard(func() val.V {
 		cfg, steps := in.At(0), in.At(1)
 		bo := cfg.At(0)
-		ctx, cancel := context.WithCancel(context.Background())
-		defer cancel()
+		ctx, cancel, release := connContext(cfg.At(8).Num(), cfg.At(5).Truth())
+		defer release()
+		clear(lastBare)
 		run := &connRun{steps: steps.Items(), ctx: ctx, cancel: cancel}
 		if cfg.At(4).Present() {
 			run.patience = cfg.At(4).At(0).Signed()
@@ -376,7 +545,7 @@ func execConnect(in val.V) val.V {
 		}
 		if cfg.At(2).Truth() {
 			client.OnRetry = func(err error, d time.Duration) {
-				run.items = append(run.items, val.L(val.N(2), connRetOf(err), val.Z(int64(d))))
+				run.items = append(run.items, val.L(val.N(2), connRetOf(ctx, err), val.Z(int64(d))))
 				if run.patience > 0 && int64(d) >= run.patience {
 					run.cancel()
 				}
@@ -414,7 +583,7 @@ func execConnect(in val.V) val.V {
 		if run.overrun {
 			return val.L(val.List(run.items), val.L(), val.List(run.gaps))
 		}
-		return val.L(val.List(run.items), val.L(connRetOf(ret)), val.List(run.gaps))
+		return val.L(val.List(run.items), val.L(connRetOf(ctx, ret)), val.List(run.gaps))
 	})
 }
 
@@ -579,6 +748,88 @@ func connOtherConnections(r *rng.R, c *Ctx) val.V {
 	return val.Int(n)
 }
 
+// of which kind the request context is (connContext); kind 6 is a deadline that passed before Connect was called
+func connCtxKind(r *rng.R, c *Ctx, before bool) val.V {
+	k := 0
+	if r.Chance(2, 3) {
+		k = 1 + r.Intn(connCtxKinds-2)
+		if before && r.Chance(1, 3) {
+			k = 6
+		}
+	}
+	c.Count(fmt.Sprintf("context-kind:%d", k))
+	return val.Int(k)
+}
+
+// every error character at every site an error can arise at (transport, reader after some bytes, validator, GetBody),
+// with every kind of request body, followed by two further attempts: what happens to an error - and to the request
+// of the NEXT attempt - depends on where the error arose, never on what it looks like
+func connCharacterSweep(c *Ctx) {
+	bodies := []val.V{
+		val.L(val.N(0), val.N(0), val.N(0)), val.L(val.N(1), val.N(0), val.N(0)), val.L(val.N(2), val.N(0), val.N(0)),
+		val.L(val.N(3), val.N(0), val.N(0)), val.L(val.N(4), val.N(1), val.N(402)), val.L(val.N(4), val.N(2), val.N(11403)),
+	}
+	bo := val.L(val.Z(2000), vrat(3, 2), vrat(-1, 1), val.Z(0), val.Z(0), val.Z(3))
+	after := val.L(val.N(3), val.S("id: 7\ndata: after\n\n"), val.L(val.N(0)), val.L(), val.Bool(false))
+	last := val.L(val.N(2), val.N(301)) // a rejected response: Connect returns, the run has a result
+	i := 0
+	emit := func(bk val.V, steps ...val.V) {
+		i++
+		c.Count("character-sweep")
+		c.Emit(val.L(val.L(bo, bk, val.Bool(i%4 != 0), val.L(), val.L(val.Z(connPatience)), val.Bool(false), val.Int(0),
+			val.L(val.N(0), val.N(0)), val.Int(i%(connCtxKinds-1))), val.List(steps)))
+	}
+	for k := uint64(0); k < connErrKinds; k++ {
+		for _, bk := range bodies {
+			emit(bk, val.L(val.N(0), val.N(1000*k+203)), after, last)
+			emit(bk, val.L(val.N(3), val.S("id: 5\ndata: x\n\ndata: cut"), val.L(val.N(1), val.N(1000*k+103)), val.L(), val.Bool(k%2 == 0)), after, last)
+			emit(bk, val.L(val.N(2), val.N(1000*k+303)), after, last)
+		}
+		// GetBody fails with this character at its first / second call
+		emit(val.L(val.N(4), val.N(0), val.N(1000*k+401)), val.L(val.N(0), val.N(201)), after, last)
+		emit(val.L(val.N(4), val.N(1), val.N(1000*k+401)), val.L(val.N(0), val.N(7202)), after, last)
+	}
+}
+
+// every kind of request context ended at every instant a script can name: inside RoundTrip (first / later attempt),
+// inside Read (at once / while blocked), inside OnRetry before a long wait (after a stream / after a transport error),
+// before Connect.  Expected every time: the context's own error.
+func connContextSweep(c *Ctx) {
+	stream := func(body string, ending val.V) val.V {
+		return val.L(val.N(3), val.S(body), ending, val.L(), val.Bool(false))
+	}
+	short := val.L(val.Z(2000), vrat(1, 1), vrat(-1, 1), val.Z(0), val.Z(0), val.Z(0))
+	long := val.L(val.Z(1_000_000_000), vrat(1, 1), vrat(-1, 1), val.Z(0), val.Z(0), val.Z(0))
+	terr := val.L(val.N(0), val.N(201))
+	eof := val.L(val.N(0))
+	type inst struct {
+		bo     val.V
+		before bool
+		steps  []val.V
+		times  int
+	}
+	instants := []inst{
+		{short, false, []val.V{val.L(val.N(1))}, 1},
+		{short, false, []val.V{terr, stream("data: a\n\n", eof), val.L(val.N(1))}, 1},
+		{short, false, []val.V{stream("id: 1\ndata: a\n\ndata", val.L(val.N(2), val.N(0)))}, 1},
+		{short, false, []val.V{terr, stream("id: 1\ndata: a\n\n", val.L(val.N(2), val.N(1)))}, 1},
+		{short, false, []val.V{stream("retry: 1000\ndata: a\n\n", eof), terr}, 1},
+		{short, false, []val.V{terr, stream("retry: 900\n\n", val.L(val.N(1), val.N(13101))), terr}, 1},
+		{long, false, []val.V{terr, terr}, 1},
+		// the first select may take either branch: several runs
+		{short, true, []val.V{stream("data: a\n\n", eof)}, 6},
+	}
+	for k := 0; k < connCtxKinds; k++ {
+		for _, in := range instants {
+			for t := 0; t < in.times; t++ {
+				c.Count("context-sweep")
+				c.Emit(val.L(val.L(in.bo, val.L(val.N(3), val.N(0), val.N(0)), val.Bool(true), val.L(), val.L(val.Z(connPatience)),
+					val.Bool(in.before), val.Int(0), val.L(val.N(0), val.N(0)), val.Int(k)), val.List(in.steps)))
+			}
+		}
+	}
+}
+
 func genConnect(c *Ctx) {
 	r := c.R
 	n := 3000
@@ -612,7 +863,7 @@ func genConnect(c *Ctx) {
 			c.Count("cancelled-before-connect")
 		}
 		others := connOtherConnections(r, c)
-		c.Emit(val.L(val.L(bo, bk, val.Bool(onRetry), hdr, patience, val.Bool(before), others, val.L(val.N(0), val.N(0))), val.List(steps)))
+		c.Emit(val.L(val.L(bo, bk, val.Bool(onRetry), hdr, patience, val.Bool(before), others, val.L(val.N(0), val.N(0)), connCtxKind(r, c, before)), val.List(steps)))
 	}
 	// attempts that take time (a slow transport, a response that stays up for a while before it ends) followed by waits
 	// of a few milliseconds; few of them, they are slept
@@ -645,8 +896,10 @@ func genConnect(c *Ctx) {
 		bk := connBodyKind(r, c)
 		c.Count("slow-attempts")
 		c.Emit(val.L(val.L(bo, bk, val.Bool(true), val.L(), val.L(val.Z(connPatience)), val.Bool(false), connOtherConnections(r, c),
-			val.L(val.N(rtDelay), val.N(bodyDelay))), val.List(steps)))
+			val.L(val.N(rtDelay), val.N(bodyDelay)), connCtxKind(r, c, false)), val.List(steps)))
 	}
+	connCharacterSweep(c)
+	connContextSweep(c)
 	// endings after every byte position of short streams, clean and erroneous and cancelled (C11)
 	shorts := []string{"data: a\n\nid: 1\n\n", "id: 5\ndata: x\r\n\r\n: c\n", "\xef\xbb\xbfretry: 1\n\ndata: y\n\n", "data: a\n\n\n", "\n", "id: 3\revent: t\r\r"}
 	for _, s := range shorts {
